@@ -15,7 +15,8 @@ pub struct Mst {
     pub reqi: RequestId,
 
     /// Message
-    #[bw(write_with = binrw_write_codepage_string::<64, _>)]
+    // LFS requires the last byte to be zero: 63 bytes of text at most, then the terminator
+    #[bw(write_with = binrw_write_codepage_string::<63, _>, pad_after = 1)]
     #[br(parse_with = binrw_parse_codepage_string::<64, _>)]
     pub msg: String,
 }
